@@ -52,7 +52,8 @@ fn ctx(u: &mut Unstructured<'_>, allow_long: bool) -> Result<BytesSpec> {
 
 impl Arb for Pattern {
     fn arb(u: &mut Unstructured<'_>) -> Result<Self> {
-        Ok(match u.int_in_range(0..=8u8)? {
+        Ok(match u.int_in_range(0..=9u8)? {
+            9 => Pattern::RandomExtreme(u64::from(u.arbitrary::<u8>()?)),
             0 => Pattern::AllMin,
             1 => Pattern::AllMax,
             2 => Pattern::AllZero,
@@ -76,7 +77,8 @@ impl Arb for SkSpec {
 
 impl Arb for PkSpec {
     fn arb(u: &mut Unstructured<'_>) -> Result<Self> {
-        Ok(match u.int_in_range(0..=6u8)? {
+        Ok(match u.int_in_range(0..=7u8)? {
+            7 => PkSpec::NttRoot { seed: u64::from(u.arbitrary::<u8>()?), poly: u.arbitrary()?, point: u.arbitrary()? },
             0 => PkSpec::AllZero,
             1 => PkSpec::AllOnes,
             2 | 3 => PkSpec::Generated(Seed32::arb(u)?),
@@ -124,7 +126,8 @@ impl Arb for ForgeSpec {
 
 impl Arb for SigMut {
     fn arb(u: &mut Unstructured<'_>) -> Result<Self> {
-        Ok(match u.int_in_range(0..=17u8)? {
+        Ok(match u.int_in_range(0..=18u8)? {
+            18 => SigMut::HintLeadingZeroTwice { poly: u.arbitrary()? },
             17 => SigMut::HintRunaway { bound: u.arbitrary()? },
             0 => SigMut::FlipBit(u.arbitrary()?),
             1 => SigMut::CtildeBit(u.arbitrary()?),
@@ -167,6 +170,8 @@ impl Arb for c02::Mutant {
             4 => c02::Present::OtherMsg(msg(u, 300)?),
             5 => c02::Present::Internal,
             6 | 7 => c02::Present::AliasLongCtx(u.arbitrary()?),
+            8 => c02::Present::InternalSigToExternal,
+            9 => c02::Present::FormattedAsMessage,
             _ => c02::Present::Same,
         };
         Ok(c02::Mutant { muts: vec_of(u, 0, 2)?, rehash: u.arbitrary()?, present })
